@@ -1,6 +1,8 @@
 """AG / JN rules (C03, C04): aggregate routing, staging, verifier, key order; joiner dispatch, build, triples."""
 import ast
 
+from .. import cfg as cfgmod
+
 from .. import roles
 from ..core import Undecided, node_text
 from ..idioms import is_name, is_true, negated
@@ -158,13 +160,28 @@ def rule_ag_init(cx, rep, port):
     rep.require_count('token constructions', n, 1, (p.files[mod], 0))
 
 
-def _stage1_columns(rep, lp, res, key_name, iff):
+def _block_env(stmts, upto):
+    """local name -> expression for the plain assignments that precede statement `upto` in a block (later ones see earlier ones)"""
+    from .. import pathsem
+    env = {}
+    for st in stmts:
+        if st is upto:
+            break
+        if isinstance(st, ast.Assign) and len(st.targets) == 1 and isinstance(st.targets[0], ast.Name):
+            env[st.targets[0].id] = pathsem.subst(st.value, env)
+        elif isinstance(st, ast.Assign) and len(st.targets) == 1 and isinstance(st.targets[0], ast.Attribute) and isinstance(st.value, ast.Name) and st.value.id in env:
+            # `query_context.writer = aggregate_writer`: from here on the two spell the same object
+            env['__alias__' + (dotted(st.targets[0]) or '')] = env[st.value.id]
+    return {k: v for k, v in env.items() if not k.startswith('__alias__')}
+
+
+def _stage1_columns(rep, lp, res, key_name, iff, env0=None):
     """per output column (= per path through the body of the stage-1 loop): a token column appends the aggregator registered under
     the token's marker_id and feeds it the token's value; any other column appends ConstGroupVerifier(current column index) and
     feeds it the value itself.  Decided on path summaries, so temporaries, merged tails and `aggregators[-1]` are the same thing."""
     from .. import pathsem
     body = lp.body
-    ps = pathsem.paths_of_block(body)
+    ps = pathsem.paths_of_block(body, env0)
     if ps is None:
         rep.undecided('stage 1 columns', lp, 'column loop body is not straight-line code')
         return
@@ -183,7 +200,7 @@ def _stage1_columns(rep, lp, res, key_name, iff):
         if tok is None:
             rep.undecided('stage 1 token test', lp, 'a path through the column loop does not classify the column by isinstance(value, RBQLAggregationToken)')
             return
-        apps = [c for c in q.calls if isinstance(c, ast.Call) and isinstance(c.func, ast.Attribute) and c.func.attr in ('append', 'push') and txt(c.func.value).endswith('.aggregators')]
+        apps = [c for c in q.calls if isinstance(c, ast.Call) and isinstance(c.func, ast.Attribute) and c.func.attr in ('append', 'push') and (txt(c.func.value).endswith('.aggregators') or txt(c.func.value).endswith('.aggregators)'))]
         incs = [c for c in q.calls if isinstance(c, ast.Call) and isinstance(c.func, ast.Attribute) and c.func.attr == 'increment']
         if len(apps) != 1:
             rep.violated('stage 1 columns', lp, 'a {} column appends {} aggregators/verifiers (must be exactly one per output column)'.format('token' if tok else 'plain', len(apps)))
@@ -274,7 +291,7 @@ def rule_ag_stage(cx, rep, port):
         rep.undecided('stage 1 loop', iff, 'column loop not recognised')
     else:
         lp = loops[0]
-        _stage1_columns(rep, lp, res, key_name, iff)
+        _stage1_columns(rep, lp, res, key_name, iff, _block_env(s1, lp))
     chk = [n for n in s1 if isinstance(n, ast.If) and 'num_aggregators_found' in node_text(n.test)]
     okc = len(chk) == 1 and isinstance(chk[0].test, ast.Compare) and isinstance(chk[0].test.ops[0], ast.NotEq) and 'RbqlParsingError' in node_text(chk[0].body[-1])
     rep.decide(okc, 'stage 1 nested aggregate check', chk[0] if chk else iff, 'aggregates hidden inside expressions are a parsing error', 'an aggregate nested inside an expression is not detected (token count != registered aggregators)')
@@ -283,26 +300,26 @@ def rule_ag_stage(cx, rep, port):
     # stage 2
     incs2 = [c for s in s2 for c in ast.walk(s) if isinstance(c, ast.Call) and isinstance(c.func, ast.Attribute) and c.func.attr == 'increment']
     ok2 = False
-    if len(incs2) == 1:
+    if len(incs2) == 1 and len(incs2[0].args) == 2:
+        from .hd import _index_name_pairs
+        from .. import pathsem
         c = incs2[0]
-        recv = c.func.value
         vparam = fd.args.args[-1].arg
         lp2 = c
         while lp2 is not None and not isinstance(lp2, (ast.For, ast.While)):
             lp2 = getattr(lp2, 'parent', None)
-
-        def element_of(e):
-            """(sequence name, index name) when e denotes sequence[index] in the enclosing loop"""
-            if isinstance(e, ast.Subscript) and isinstance(e.value, ast.Name) and isinstance(e.slice, ast.Name):
-                return e.value.id, e.slice.id
-            if isinstance(e, ast.Name) and isinstance(lp2, ast.For):
-                if isinstance(lp2.target, ast.Tuple) and len(lp2.target.elts) == 2 and is_name(lp2.target.elts[1], e.id) and isinstance(lp2.iter, ast.Call) and dotted(lp2.iter.func) == 'enumerate' and len(lp2.iter.args) == 1 and isinstance(lp2.iter.args[0], ast.Name) and isinstance(lp2.target.elts[0], ast.Name):
-                    return lp2.iter.args[0].id, lp2.target.elts[0].id
-                ds = [n for n in lp2.body if isinstance(n, ast.Assign) and is_name(n.targets[0], e.id)]
-                if len(ds) == 1:
-                    return element_of(ds[0].value)
-            return None
-        ok2 = isinstance(recv, ast.Subscript) and (dotted(inline_single_defs(recv.value, fd, depth=3, any_value=True)) or '').endswith('.aggregators') and isinstance(recv.slice, ast.Name) and is_name(c.args[0], fd.args.args[-2].arg) and element_of(c.args[1]) == (vparam, recv.slice.id)
+        env2 = _block_env(s2, lp2) if lp2 is not None else {}
+        recv = pathsem.subst(c.func.value, env2)
+        pairs2 = _index_name_pairs(ast.Module(body=s2, type_ignores=[]), vparam)
+        # counting loop without an element variable: for i in range(len(values)): ... values[i]
+        idx_vars = {i_ for i_, _ in pairs2}
+        if isinstance(lp2, ast.For) and isinstance(lp2.target, ast.Name) and isinstance(lp2.iter, ast.Call) and dotted(lp2.iter.func) == 'range' and lp2.iter.args and isinstance(lp2.iter.args[-1], ast.Call) and dotted(lp2.iter.args[-1].func) == 'len' and is_name(lp2.iter.args[-1].args[0], vparam):
+            idx_vars.add(lp2.target.id)
+        if isinstance(recv, ast.Subscript) and isinstance(recv.slice, ast.Name) and recv.slice.id in idx_vars and (dotted(recv.value) or node_text(recv.value, 300)).endswith('.aggregators'):
+            i_ = recv.slice.id
+            val = c.args[1]
+            val_ok = (isinstance(val, ast.Subscript) and is_name(val.value, vparam) and is_name(val.slice, i_)) or (isinstance(val, ast.Name) and (i_, val.id) in pairs2)
+            ok2 = is_name(c.args[0], fd.args.args[-2].arg) and val_ok
     rep.decide(ok2, 'stage 2', incs2[0] if incs2 else iff, 'aggregators[i].increment(key, value i)', 'stage 2 does not increment aggregator i with output value i under the group key')
     # key set
     adds = [n for n in fd.body if isinstance(n, ast.Expr) and isinstance(n.value, ast.Call) and isinstance(n.value.func, ast.Attribute) and n.value.func.attr == 'add' and (dotted(n.value.func.value) or '').endswith('aggregation_keys')]
@@ -490,6 +507,27 @@ def rule_ag_keyord(cx, rep, port):
         parses = [c2 for c2 in ast.walk(cfd) if isinstance(c2, ast.Call) and dotted(c2.func) == 'JSON.parse']
         cmp_elems = [n for n in ast.walk(cfd) if isinstance(n, ast.Compare) and isinstance(n.left, ast.Subscript) and isinstance(n.ops[0], ast.Lt)]
         rep.decide(len(parses) >= 2 and bool(cmp_elems), 'key order', cfd, 'comparator parses the keys and compares their components', 'the comparator does not compare the parsed key components')
+        # the Map key of a group is an injective encoding of the GROUP BY values: JSON text of the whole key array on every path
+        # (a raw value for "simple" keys collides with the JSON text of another key and cannot be told apart when restored)
+        sa_fd = p.func(mod, 'select_aggregated')
+        kparam = sa_fd.args.args[-2].arg
+        rebinds = [n for n in walk_no_nested(sa_fd) if isinstance(n, ast.Assign) and len(n.targets) == 1 and is_name(n.targets[0], kparam)]
+
+        def json_of_key(e):
+            return isinstance(e, ast.Call) and dotted(e.func) == 'JSON.stringify' and len(e.args) == 1 and is_name(e.args[0], kparam)
+        if not rebinds:
+            rep.undecided('key encoding', sa_fd, 'serialisation of the group key not found in select_aggregated')
+        else:
+            bad_enc = None
+            for n in rebinds:
+                alts = [n.value.body, n.value.orelse] if isinstance(n.value, ast.IfExp) else [n.value]
+                for a_ in alts:
+                    if not json_of_key(a_):
+                        bad_enc = (n, a_)
+            if bad_enc is not None:
+                rep.violated('key encoding', bad_enc[0], 'on some path the group key becomes `{}` instead of the JSON text of the whole key: the encoding is no longer injective (a raw value can equal the JSON text of another key, and the comparator cannot tell which it was)'.format(node_text(bad_enc[1], 40)))
+                return
+            rep.holds('key encoding', rebinds[0], 'the group key is JSON.stringify(key) wherever it is rebound')
         # the reference orders strings by code point: a collation-aware comparison (localeCompare, Intl.Collator) interleaves
         # upper / lower case and reorders punctuation and non-ASCII letters, so rows come out in another order (and TOP keeps others)
         coll = [c2 for c2 in ast.walk(cfd) if isinstance(c2, ast.Call) and ((isinstance(c2.func, ast.Attribute) and c2.func.attr in ('localeCompare', 'compare') ) or (dotted(c2.func) or '').endswith('Collator'))]
@@ -607,27 +645,82 @@ def rule_jn_joiners(cx, rep, port):
         g = ms['get_rhs']
         calls = [x for x in walk_no_nested(g) if isinstance(x, ast.Call) and call_name(x) == 'self.join_map.get_join_records']
         rep.decide(len(calls) == 1 and is_name(calls[0].args[0], g.args.args[1].arg), c.name + ' lookup', g, 'looks the key up in the join map', '{}.get_rhs does not look up its key argument in the join map'.format(c.name))
+    from .. import pathsem
+    from ..snippet import inline_single_defs
     left = p.cls(mod, 'LeftJoiner')
     init = roles.methods(left)['__init__']
+    jm = init.args.args[1].arg if len(init.args.args) > 1 else 'join_map'
     nr = [n for n in walk_no_nested(init) if isinstance(n, ast.Assign) and dotted(n.targets[0]) == 'self.null_record']
     ok = False
-    if len(nr) == 1 and isinstance(nr[0].value, ast.List) and len(nr[0].value.elts) == 1 and isinstance(nr[0].value.elts[0], (ast.Tuple, ast.List)) and len(nr[0].value.elts[0].elts) == 3:
-        a, b, c_ = nr[0].value.elts[0].elts
-        txt = node_text(c_)
-        ok = is_none(a) and dotted(b) == 'join_map.max_record_len' and 'join_map.max_record_len' in txt and ('[None] *' in txt or 'fill(None)' in txt)
+    if len(nr) == 1:
+        v = inline_single_defs(nr[0].value, init, depth=3, any_value=True)
+        if isinstance(v, ast.List) and len(v.elts) == 1 and isinstance(v.elts[0], (ast.Tuple, ast.List)) and len(v.elts[0].elts) == 3:
+            a, b, c_ = v.elts[0].elts
+            width = '{}.max_record_len'.format(jm)
+            txt = node_text(c_, 200)
+            ok = is_none(a) and dotted(b) in (width, 'self.join_map.max_record_len') and (width in txt or 'self.join_map.max_record_len' in txt) and ('[None] *' in txt or 'fill(None)' in txt)
     rep.decide(ok, 'LeftJoiner null record', nr[0] if nr else init, 'one match (None, max_record_len, [None]*max_record_len)', 'the LEFT JOIN null record is not a single (None, width, width x None) triple built from the widest B record')
-    g = roles.methods(left)['get_rhs']
-    t = [n for n in walk_no_nested(g) if isinstance(n, ast.If)]
-    okt = len(t) == 1 and node_text(t[0].test) == 'len(result) == 0' and isinstance(t[0].body[0], ast.Return) and dotted(t[0].body[0].value) == 'self.null_record'
-    rep.decide(okt, 'LeftJoiner empty', t[0] if t else g, 'no match -> the null record; otherwise the matches', 'LEFT JOIN does not return the null record exactly when there is no match')
-    strict = p.cls(mod, 'StrictLeftJoiner')
-    g = roles.methods(strict)['get_rhs']
-    t = [n for n in walk_no_nested(g) if isinstance(n, ast.If)]
-    okt = len(t) == 1 and node_text(t[0].test) == 'len(result) != 1' and isinstance(t[0].body[-1], ast.Raise) and 'RbqlRuntimeError' in node_text(t[0].body[-1])
-    rep.decide(okt, 'StrictLeftJoiner', t[0] if t else g, '!= 1 match raises the runtime error', 'STRICT LEFT JOIN does not fail exactly when the number of matches differs from 1')
-    inner = p.cls(mod, 'InnerJoiner')
-    g = roles.methods(inner)['get_rhs']
-    rep.decide(len(g.body) == 1 and isinstance(g.body[0], ast.Return), 'InnerJoiner', g, 'returns the matches as they are', 'INNER JOIN post-processes its matches')
+
+    def lookup(e):
+        return isinstance(e, ast.Call) and call_name(e) == 'self.join_map.get_join_records'
+
+    def count_cmp(atom):
+        """(op, k) when the atom compares the number of matches with the constant k"""
+        if isinstance(atom, ast.Compare) and len(atom.ops) == 1 and isinstance(atom.left, ast.Call) and dotted(atom.left.func) == 'len' and atom.left.args and lookup(atom.left.args[0]) and isinstance(atom.comparators[0], ast.Constant) and isinstance(atom.comparators[0].value, int):
+            return type(atom.ops[0]), atom.comparators[0].value
+        return None
+
+    def holds_for(op, k, n_):
+        return {ast.Eq: n_ == k, ast.NotEq: n_ != k, ast.Gt: n_ > k, ast.GtE: n_ >= k, ast.Lt: n_ < k, ast.LtE: n_ <= k}.get(op)
+
+    def outcomes(g_):
+        """for 0, 1, 2 matches: what get_rhs does ('null' / 'matches' / 'raise' / '?')"""
+        ps_ = pathsem.paths(g_)
+        if ps_ is None:
+            return None
+        res = {}
+        for n_ in (0, 1, 2):
+            got = set()
+            for q in ps_:
+                feasible = True
+                for atom, pol in pathsem.atoms(q.conds):
+                    cc = count_cmp(atom)
+                    if cc is None:
+                        if isinstance(atom, ast.UnaryOp) or lookup(atom) or (isinstance(atom, ast.Call) and dotted(atom.func) == 'len' and atom.args and lookup(atom.args[0])):
+                            # truthiness of the match list / of its length
+                            truth = n_ > 0
+                            if truth != pol:
+                                feasible = False
+                            continue
+                        return None
+                    hv = holds_for(cc[0], cc[1], n_)
+                    if hv is None:
+                        return None
+                    if hv != pol:
+                        feasible = False
+                if not feasible:
+                    continue
+                if q.kind == 'raise':
+                    got.add('raise:' + ('runtime' if q.value is not None and 'RbqlRuntimeError' in node_text(q.value, 200) else 'other'))
+                elif q.kind == 'return' and q.value is not None and dotted(q.value) == 'self.null_record':
+                    got.add('null')
+                elif q.kind == 'return' and q.value is not None and lookup(q.value):
+                    got.add('matches')
+                else:
+                    got.add('?')
+            res[n_] = got
+        return res
+    for cname, want, good, bad in (
+            ('LeftJoiner', {0: {'null'}, 1: {'matches'}, 2: {'matches'}}, 'no match -> the null record; otherwise the matches', 'LEFT JOIN does not return the null record exactly when there is no match'),
+            ('StrictLeftJoiner', {0: {'raise:runtime'}, 1: {'matches'}, 2: {'raise:runtime'}}, '!= 1 match raises the runtime error', 'STRICT LEFT JOIN does not fail exactly when the number of matches differs from 1'),
+            ('InnerJoiner', {0: {'matches'}, 1: {'matches'}, 2: {'matches'}}, 'returns the matches as they are', 'INNER JOIN post-processes its matches')):
+        g = roles.methods(p.cls(mod, cname))['get_rhs']
+        oc = outcomes(g)
+        key = cname if cname != 'LeftJoiner' else 'LeftJoiner empty'
+        if oc is None or any('?' in v for v in oc.values()):
+            rep.undecided(key, g, 'what {}.get_rhs does for 0 / 1 / 2 matches is not recognised ({})'.format(cname, oc))
+        else:
+            rep.decide(oc == want, key, g, good, bad + ' (0 / 1 / 2 matches -> {})'.format([sorted(oc[n_]) for n_ in (0, 1, 2)]))
 
 
 def rule_jn_build(cx, rep, port):
@@ -654,6 +747,15 @@ def rule_jn_build(cx, rep, port):
     mx = [n for n in walk_no_nested(b) if isinstance(n, ast.Assign) and dotted(n.targets[0]) == 'self.max_record_len']
     okm = len(mx) == 1 and 'max(self.max_record_len, {})'.format(nfn) in node_text(mx[0].value).replace('Math.', '')
     rep.decide(okm, 'max width', mx[0] if mx else b, 'max_record_len is the running maximum of the B field counts', 'max_record_len is not the maximum field count of B')
+    if okm:
+        # ... of *every* record: no way from one read of a B record to the next that skips the update (CFG)
+        gb = cfgmod.CFG(b)
+        is_fetch = lambda n_: cfgmod.node_contains(n_, lambda x: isinstance(x, ast.Call) and (call_name(x) or '').endswith('record_iterator.get_record'))  # noqa: E731
+        is_upd = lambda n_: cfgmod.node_contains(n_, lambda x: x is mx[0])  # noqa: E731
+        fetches = [n_ for n_ in gb.nodes if is_fetch(n_)]
+        skip = any(gb.exists_path(f_, is_fetch, avoid=is_upd, edge_ok=lambda a_, b_, lab: lab not in ('exc', 'raise', 'assert')) for f_ in fetches)
+        if fetches:
+            rep.decide(not skip, 'max width every record', mx[0], 'every B record read takes part in the maximum', 'some B records are stored without updating max_record_len (the update sits in a branch): the LEFT JOIN null record can be narrower than the widest B record')
     if 'init' in ms or '__init__' in ms:
         ini = ms.get('__init__') or ms.get('init')
         m0 = [n for n in walk_no_nested(ini) if isinstance(n, ast.Assign) and dotted(n.targets[0]) == 'self.max_record_len']
